@@ -6,6 +6,8 @@ probability.  The reference model is run in lock-step and handed to the armed or
 the implementation's result.  State key = raw bytes of the full state tensor (no abstraction).
 """
 import collections
+import copy
+import os
 
 import numpy as np
 
@@ -14,6 +16,51 @@ from .layout import Layout
 from .model import Model, CLASS_TO_TYPE
 from .seams import DrawSeam, draw_values
 from .spec import build_scenario, spec_to_json
+
+
+def build_twin(spec):
+    """environments (flat + parameterised actions) of the maximally different scenario with the SAME layout"""
+    from nasim.envs import NASimEnv
+    from .spec import to_scenario, all_addresses
+    t = copy.deepcopy(spec)
+    t["name"] = "verif"
+    n = len(t["subnets"]) + 1
+    t["topology"] = [[1] * n for _ in range(n)]
+    t["firewall"] = {(i, j): list(t["services"]) for i in range(n) for j in range(n) if i != j}
+    for k, a in enumerate(all_addresses(t)):
+        h = t["hosts"][a]
+        h["services"] = list(t["services"])
+        h["processes"] = list(t["processes"])
+        h["os"] = t["os"][(t["os"].index(h["os"]) + 1) % len(t["os"])] if h["os"] in t["os"] else t["os"][0]
+        h["firewall"] = {}
+        h["value"] = float(h.get("value", 0)) + 7
+        h["discovery_value"] = float(h.get("discovery_value", 0)) + 3
+    t["sensitive_hosts"] = {a: 1000 + k for k, a in enumerate(all_addresses(t))}
+    for a in t["sensitive_hosts"]:
+        t["hosts"][a].pop("value", None)
+    for e in list(t["exploits"].values()) + list(t["privescs"].values()):
+        e["cost"] = float(e["cost"]) * 3 + 1
+        e["prob"] = 1.0
+        e["access"] = 2
+    t["scan_costs"] = {k: float(v) + 5 for k, v in t["scan_costs"].items()}
+    t["step_limit"] = 7
+    t["host_order"] = "sorted"
+    sc = to_scenario(t)
+    envs = [NASimEnv(sc, fully_obs=False, flat_actions=True, flat_obs=True),
+            NASimEnv(sc, fully_obs=True, flat_actions=False, flat_obs=False)]
+    for e in envs:
+        e.reset()
+    # use it a little: lazily built tables (exploit maps, masks, hop counts) get filled with the twin's content
+    try:
+        envs[0].get_action_mask()
+        envs[0].get_score_upper_bound()
+        envs[1].step(envs[1].action_space.sample())
+        for i in range(min(12, int(envs[0].action_space.n))):
+            envs[0].step(i)
+        envs[0].reset()
+    except Exception:
+        pass
+    return envs
 
 
 class Tr:
@@ -45,8 +92,32 @@ class Ctx:
             pass
         self.env = NASimEnv(self.scenario, fully_obs=False, flat_actions=True, flat_obs=True)
         self.env_fo = NASimEnv(self.scenario, fully_obs=True, flat_actions=True, flat_obs=True) if need_fo else None
+        # a maximally different TWIN of the same vector layout is built AFTER the environment under test and kept
+        # alive during the whole exploration: other topology (everything public and connected), allow-all firewalls,
+        # no host firewalls, every host runs everything, other values / costs / probabilities / sensitive hosts.
+        # Environments are independent of each other (C19), so this must not change anything - but any state shared
+        # through classes or modules (keyed by address, subnet number, scenario name ...) now shows up in EVERY
+        # sweep-based check as a disagreement with the reference model.
+        self.twin = None
+        if "subnets" in spec and os.environ.get("VERIF_NO_TWIN") != "1":
+            try:
+                self.twin = build_twin(spec)
+            except Exception:
+                self.twin = None
         self.layout = Layout(spec)
         self.env.reset()
+        # public QUERIES must not change behaviour: ask them all once before anything is explored
+        for q in ("get_minimum_hops", "get_score_upper_bound", "get_action_mask", "goal_reached"):
+            try:
+                getattr(self.env, q)()
+            except Exception:
+                pass
+        try:
+            self.env.network.get_minimal_hops(); self.env.network.get_subnet_depths()
+            self.env.network.get_total_sensitive_host_value(); self.env.network.get_total_discovery_value()
+            self.scenario.get_description()
+        except Exception:
+            pass
         self.rows_ok = self.layout.bind_rows(self.env.current_state.tensor)
         self.model = Model(spec, self.layout.addrs)
         self.actions = list(self.env.action_space.actions) + [NoOp()]
